@@ -81,6 +81,7 @@ def job_render(job):
 
     class Env(Environment):
         context_depth_limit = job.get("limit", 30)
+        suppress_blank_control_flow_blocks = bool(job.get("suppress_blank", True))
 
     mode = {"strict": Mode.STRICT, "lax": Mode.LAX, "warn": Mode.WARN}[job.get("mode", "strict")]
     env = Env(loader=DictLoader(dict(job["templates"])), tolerance=mode, extra=True)
@@ -272,7 +273,7 @@ JOBS = {"render": job_render, "parse": job_parse}
 def main():
     hi = len(sys.argv) > 1 and sys.argv[1] == "hi"
     if hi:
-        sys.setrecursionlimit(1_000_000)
+        sys.setrecursionlimit(150_000)
     signal.signal(signal.SIGVTALRM, _on_timer)
     # make sure liquid is imported before the first timed job
     import liquid  # noqa: F401
